@@ -188,7 +188,7 @@ def wname_matches(evname, wname):
 # ------------------------------------------------------------------------------------------------ C10
 
 def c10(sc, V):
-    f = []
+    f = _start_not_exclusive(V)
     for s in V:
         if s.snap.blocked:
             break
@@ -945,12 +945,27 @@ def _listed(snap, pid):
 
 # ------------------------------------------------------------------------------------------------ C19
 
+def _start_not_exclusive(V):
+    """the daemon's start sequence is an exclusive operation: while it is in flight (it sleeps between spawns / watchers) it
+    holds the slot, so that the periodic check and other exclusive requests are refused and cannot interleave their own spawns"""
+    out = []
+    for s in V:
+        if s.kind() == "start" and not s.snap.blocked and s.before.slot is None and s.snap.sleepers and \
+                s.snap.slot != "arbiter_start_watchers" and not any(l[0] in ("conflict", "raised") for l in s.lines):
+            out.append({"sig": "start-sequence-not-exclusive", "step": s.n,
+                        "msg": "daemon start in flight (timers pending) but the exclusive slot is %s" % s.snap.slot})
+    return out
+
+
 def c19(sc, V):
-    f = []
+    f = _start_not_exclusive(V)
     started_at = spawn_times(sc, V)
     for s in V:
-        if not (s.kind() == "start" or (s.cmd() in ("start", "restart") and "name" not in s.props() and
-                                       any(r[3] == "ok" for r in s.of("rep")))):
+        several = s.cmd() == "start" and isinstance(s.props().get("name"), str) and "*" in s.props()["name"] and \
+            s.props().get("match", "glob") == "glob" and "[" not in s.props()["name"]
+        if not (s.kind() == "start" or (s.cmd() in ("start", "restart") and ("name" not in s.props() or several) and
+                                       (any(r[3] == "ok" for r in s.of("rep")) or
+                                        (several and s.props().get("waiting") and s.snap.slot == "arbiter_start_watchers")))):
             continue
         if s.before.slot is not None or s.before.blocked:
             continue
